@@ -1,6 +1,11 @@
 package run
 
-import "strings"
+import (
+	"strings"
+	"time"
+
+	"verif/sim/engine"
+)
 
 // GenerateFor is Generate for a given kind of worker: the auto-yield worker
 // (a yield before every statement, ~20x the events) runs at most ten tasks of
@@ -22,6 +27,18 @@ func GenerateFor(prop string, seed uint64, tier string, auto bool) *Spec {
 		for _, ops := range s.Tasks {
 			for i := range ops {
 				ops[i].Text = strings.ReplaceAll(ops[i].Text, "**.q", "items.q")
+			}
+		}
+		// far-future wall clock: every other clock run lives between the
+		// years 2263 and 9995 (the in-bubble clock covers 255 years)
+		if s.Kind == "clock" {
+			rng := engine.NewRNG(seed, "clockshift")
+			if rng.Chance(1, 2) {
+				years := []int{263, 264, 300, 1000, 3000, 7000, 7740}[rng.Intn(7)]
+				if rng.Chance(1, 2) {
+					years = rng.Range(263, 7740)
+				}
+				s.ClockShiftSec = time.Date(2000+years, 1, 1, 0, 0, 0, 0, time.UTC).Unix() - time.Date(2000, 1, 1, 0, 0, 0, 0, time.UTC).Unix()
 			}
 		}
 	}
